@@ -196,6 +196,10 @@ void h_apply_frame(void)
 	    for (int r = 0; r < NP; ++r)
 		for (int c = 0; c < NP; ++c) {
 		    double mm = m_value(r * NP + c, f);
+
+		    /* TE10 / UE10: the outside leakage term of that cell (off-diagonal, row-major) is subtracted first */
+		    if (VL_HAS_OUTSIDE_LEAKAGE_TERMS(&vl) && r != c)
+			mm -= t_marker(f, VL_EL_OFFSET(&vl) + (r == 0 ? 0 : 1));
 #ifdef CHECK_FORM_T8
 		    double ts = t_marker(f, VL_TS_OFFSET(&vl) + r), ti = t_marker(f, VL_TI_OFFSET(&vl) + r);
 		    double tx = t_marker(f, VL_TX_OFFSET(&vl) + c), tm = t_marker(f, VL_TM_OFFSET(&vl) + c);
